@@ -392,6 +392,12 @@ EditsAt(t, s) ==
        (IF Len(x.kv) >= 2 THEN {put("ReorderKeys", [x EXCEPT !.kv = Reverse(@)]), put("ReorderKeys", [x EXCEPT !.kv = Rotate(@)])} ELSE {})
        \cup (IF s.kind \in DocKinds THEN addKey("AddDoc", "doc", DocStr) ELSE {})
        \cup (IF s.kind \in NamedKinds THEN addKey("AddAliases", "aliases", AliasArr) ELSE {})
+       \* an alias that is the full name of ANOTHER type defined in the same document (a rename in progress): aliases
+       \* are stripped, references keep denoting what they name
+       \cup (IF s.kind \in NamedKinds /\ ~HasKey(x, "aliases")
+             THEN {put("AddAliasOfOtherType", [x EXCEPT !.kv = Append(@, <<"aliases", JArr(<<NTree(DefFull(At(t, o.p), o.ens))>>)>>)])
+                     : o \in {d \in DefSites(t) : d.p # s.p /\ HasDot(DefFull(At(t, d.p), d.ens))}}
+             ELSE {})
        \cup (IF s.kind = "field" THEN addKey("AddAliases", "aliases", FieldAliasArr) ELSE {})
        \cup (IF s.kind = "field" /\ SimpleDefault(Get(x, "type")) # <<>> THEN addKey("AddDefault", "default", SimpleDefault(Get(x, "type"))[1]) ELSE {})
        \cup (IF s.kind = "field" THEN addKey("AddOrder", "order", Str_desc) ELSE {})
